@@ -356,6 +356,27 @@ pub fn archives(seed: u64, thorough: bool) -> Vec<Arch> {
             }
         }
     }
+    // archives that took two attempts: finish() refused (comment one byte too long for the end record), a shorter comment,
+    // finish() again - whatever the first attempt wrote must not show
+    {
+        let comps: Vec<(&'static str, Vec<Call>)> = crate::props::c02::composites(seed).into_iter().filter(|c| !c.0.starts_with("zipcrypto")).collect();
+        let src = crate::props::c02::sources(seed);
+        for k in [0usize, 2, 5, 9] {
+            let mut calls = vec![];
+            for c in comps.iter().skip(k).take(2) {
+                calls.extend(c.1.iter().cloned());
+            }
+            calls.push(Call::SetComment(vec![b'k'; 65536]));
+            calls.push(Call::Finish);
+            calls.push(Call::SetComment(b"fits".to_vec()));
+            calls.push(Call::Finish);
+            let (res, bytes) = exec(&calls, &src);
+            let n = res.len();
+            if res[n - 1].is_ok() && res[n - 3].is_err() && res[..n - 3].iter().all(|r| r.is_ok()) {
+                add(format!("writer-second-finish-after-refused-comment:composites {k}.."), bytes, None, json!({"calls": calls_json(&calls)}), None);
+            }
+        }
+    }
     // builder: streamable layouts
     let content = b"streamable builder entry, streamable builder entry".to_vec();
     for (k, (m, le, ce, cm)) in [(0u16, false, false, false), (8, true, false, true), (12, false, true, false), (93, true, true, true)].iter().enumerate() {
